@@ -186,7 +186,8 @@ func c03Worker(w *W) {
 	}
 	// events: per goroutine a mix of small lines, a dense sweep of lengths around the buffer cap
 	// (so that some formatted line has exactly cap bytes), and lines beyond 3x cap
-	base := time.Date(2024, 5, 1, 10, 0, 0, 0, time.UTC)
+	// the events' times run across midnight (and a year boundary) of the +05:30 zones, not of UTC
+	base := time.Date(2024, 12, 31, 18, 27, 0, 0, time.UTC)
 	evs := make([][]*c03ev, G)
 	richFeats := 0
 	sweepFrom := capBytes - 260
